@@ -23,6 +23,15 @@ go build ./... > /tmp/seed-build.txt 2>&1; rb=$?
 demo > /tmp/seed-$id-$k-with.txt 2>&1; r1=$?
 rm $pkg/zz_demo_test.go
 suite=$(go test -vet=off -count=1 ./... 2>&1 | grep -E '^(FAIL|---)' | grep -v 'TestCgroupAll' | grep -v '^FAIL$' | grep -v 'pkg/cgroup' )
+# the container tests time out on a loaded machine (ping deadline): a package that failed is re-run alone up to 3 times
+if [ -n "$suite" ]; then
+  still=""
+  for fp in $(echo "$suite" | grep '^FAIL' | awk '{print $2}' | sed 's#github.com/criyle/go-sandbox/##'); do
+    okp=0; for t in 1 2 3; do if go test -vet=off -count=1 ./$fp/ >/dev/null 2>&1; then okp=1; break; fi; sleep 2; done
+    [ $okp -eq 1 ] || still="$still FAIL:$fp"
+  done
+  suite=$still
+fi
 git checkout -q -- . ; git clean -fdq
 echo "demo-without exit=$r0 build=$rb demo-with exit=$r1 suite-extra-failures='$suite'"
 if [ $r0 -eq 0 ] && [ $rb -eq 0 ] && [ $r1 -ne 0 ] && [ -z "$suite" ]; then
